@@ -113,7 +113,7 @@ func VxC19Stream() {
 			want = vx.Choice("which", len(genuine))
 			return &pb.SessionRequest{Request: &pb.SessionRequest_Decrypt{Decrypt: &pb.Decrypt{DataRowRecord: genuine[want]}}}, nil
 		case rqDecryptForeign:
-			return &pb.SessionRequest{Request: &pb.SessionRequest_Decrypt{Decrypt: &pb.Decrypt{DataRowRecord: toProtobufDRR(foreign)}}}, nil
+			return &pb.SessionRequest{Request: &pb.SessionRequest_Decrypt{Decrypt: &pb.Decrypt{DataRowRecord: refToPB(foreign)}}}, nil
 		case rqDecryptMalformed:
 			var d *pb.DataRowRecord
 			switch vx.Choice("malformed", 5) {
@@ -186,26 +186,107 @@ func VxC19Stream() {
 	vx.Reach("C19.stream_end")
 }
 
-// VxC18Proto: the protobuf <-> DataRowRecord mapping is field-for-field and mutually inverse.
-func VxC18Proto() {
-	d := &appencryption.DataRowRecord{
-		Data: vx.Bytes("data", 3),
-		Key: &appencryption.EnvelopeKeyRecord{
-			Created:      vx.Int64("created"),
-			EncryptedKey: vx.Bytes("key", 3),
-			ParentKeyMeta: &appencryption.KeyMeta{
-				ID:      vx.String("pid", 12),
-				Created: vx.Int64("pcreated"),
+// refToPB / refFromPB: the record <-> message mapping written from api/appencryption.proto and the documented record
+// layout (what an independent client of the sidecar does), not from the code under test.
+func refToPB(d *appencryption.DataRowRecord) *pb.DataRowRecord {
+	return &pb.DataRowRecord{
+		Data: d.Data,
+		Key: &pb.EnvelopeKeyRecord{
+			Created: d.Key.Created,
+			Key:     d.Key.EncryptedKey,
+			ParentKeyMeta: &pb.KeyMeta{
+				KeyId:   d.Key.ParentKeyMeta.ID,
+				Created: d.Key.ParentKeyMeta.Created,
 			},
 		},
 	}
-	p := toProtobufDRR(d)
-	vx.Assert("C18.pb_data", vx.BytesEq(p.GetData(), d.Data))
-	vx.Assert("C18.pb_key", vx.BytesEq(p.GetKey().GetKey(), d.Key.EncryptedKey))
-	vx.Assert("C18.pb_created", p.GetKey().GetCreated() == d.Key.Created)
-	vx.Assert("C18.pb_parent_id", p.GetKey().GetParentKeyMeta().GetKeyId() == d.Key.ParentKeyMeta.ID)
-	vx.Assert("C18.pb_parent_created", p.GetKey().GetParentKeyMeta().GetCreated() == d.Key.ParentKeyMeta.Created)
-	back := fromProtobufDRR(p)
-	vx.Assert("C18.pb_inverse", env.SameDRR(back, d))
+}
+
+func refFromPB(p *pb.DataRowRecord) *appencryption.DataRowRecord {
+	return &appencryption.DataRowRecord{
+		Data: p.GetData(),
+		Key: &appencryption.EnvelopeKeyRecord{
+			Created:      p.GetKey().GetCreated(),
+			EncryptedKey: p.GetKey().GetKey(),
+			ParentKeyMeta: &appencryption.KeyMeta{
+				ID:      p.GetKey().GetParentKeyMeta().GetKeyId(),
+				Created: p.GetKey().GetParentKeyMeta().GetCreated(),
+			},
+		},
+	}
+}
+
+// VxC18ProtoStream: the gRPC message mapping, checked through the stream (no unexported helper is named, so a
+// refactor of the mapping code keeps the check): records written by the SDK and mapped by a reference client are
+// decrypted by the sidecar, records emitted by the sidecar and mapped back by the reference client are decrypted by
+// the SDK, across two intermediate-key generations (same key id, different creation stamps) in either order.
+func VxC18ProtoStream() {
+	e := env.New()
+	f := e.Factory(e.Policy(env.Policies[0], env.CacheDefault))
+	t0, _ := vx.Now()
+	vx.ClockFreeze(true)
+	direct, _ := f.GetSession("p0")
+	pl1, pl2 := vx.Bytes("pl1", 2), vx.Bytes("pl2", 2)
+	d1, err := direct.Encrypt(env.Ctx, append([]byte(nil), pl1...))
+	vx.Assert("C18.pbs_setup", err == nil)
+	// rotate the intermediate key: revoke it out of band, let more than a precision bucket pass
+	e.Store.Latest(env.IKID("p0")).Revoked = true
+	vx.ClockFreeze(false)
+	vx.ClockMin(t0 + 3700)
+	t1, _ := vx.Now()
+	vx.ClockFreeze(true)
+	d2, err := direct.Encrypt(env.Ctx, append([]byte(nil), pl2...))
+	vx.Assert("C18.pbs_setup", err == nil)
+	if err != nil || d1.Key.ParentKeyMeta.Created == d2.Key.ParentKeyMeta.Created {
+		vx.Assert("C18.pbs_rotated", false)
+		vx.Stop()
+	}
+	recs := []*appencryption.DataRowRecord{d1, d2}
+	pls := [][]byte{pl1, pl2}
+	first := vx.Choice("first", 2)
+	order := []int{first, 1 - first, first}
+	data := vx.Bytes("data", 2)
+	step := 0
+	var emitted *pb.DataRowRecord
+	st := &vxStream{}
+	st.next = func() (*pb.SessionRequest, error) {
+		step++
+		switch {
+		case step == 1:
+			return &pb.SessionRequest{Request: &pb.SessionRequest_GetSession{GetSession: &pb.GetSession{PartitionId: "p0"}}}, nil
+		case step <= 4:
+			return &pb.SessionRequest{Request: &pb.SessionRequest_Decrypt{Decrypt: &pb.Decrypt{DataRowRecord: refToPB(recs[order[step-2]])}}}, nil
+		case step == 5:
+			return &pb.SessionRequest{Request: &pb.SessionRequest_Encrypt{Encrypt: &pb.Encrypt{Data: append([]byte(nil), data...)}}}, nil
+		}
+		return nil, io.EOF
+	}
+	st.check = func(r *pb.SessionResponse) {
+		switch {
+		case step == 1:
+			vx.Assert("C18.pbs_get_session_ok", r != nil && !isErr(r))
+		case step <= 4:
+			ok := r != nil && r.GetDecryptResponse() != nil
+			vx.Assert("C18.sidecar_reads_reference_mapped_record", ok && vx.BytesEq(r.GetDecryptResponse().GetData(), pls[order[step-2]]))
+		case step == 5:
+			if r != nil && r.GetEncryptResponse() != nil {
+				emitted = r.GetEncryptResponse().GetDataRowRecord()
+			}
+		}
+	}
+	s := &streamer{sessionFactory: f}
+	s.Stream(st)
+	vx.Assert("C18.pbs_one_response_per_request", st.sends == 5)
+	if emitted == nil {
+		vx.Assert("C18.sidecar_emits_a_record", false)
+		vx.Stop()
+	}
+	// field for field: what the sidecar emitted is what the SDK produced (the data key's stamp is the instant of the
+	// call, the parent meta names the current intermediate key of the partition)
+	vx.Assert("C18.pb_key_created_is_the_data_key_stamp", emitted.GetKey().GetCreated() == t1)
+	vx.Assert("C18.pb_parent_names_current_ik", emitted.GetKey().GetParentKeyMeta().GetKeyId() == env.IKID("p0") &&
+		emitted.GetKey().GetParentKeyMeta().GetCreated() == d2.Key.ParentKeyMeta.Created)
+	out, err := direct.Decrypt(env.Ctx, *refFromPB(emitted))
+	vx.Assert("C18.sdk_reads_record_emitted_by_sidecar", vx.And(err == nil, vx.BytesEq(out, data)))
 	vx.Reach("C18.proto_end")
 }
